@@ -193,3 +193,20 @@ T('C01', 'slope-depth-bigger', 'slope.py', "depth=(1, 1),", "depth=(2, 2),")
 T('C01', 'slope-boundary-none', 'slope.py', "boundary=np.nan,\n                           meta", "boundary='none',\n                           meta")
 T('C01', 'apply-int-half', 'focal.py', "    pad_h = kernel.shape[0] // 2\n    pad_w = kernel.shape[1] // 2\n\n    out = data.map_overlap(_func,", "    pad_h = int(kernel.shape[0] / 2)\n    pad_w = int(kernel.shape[1] / 2)\n\n    out = data.map_overlap(_func,")
 T('C01', 'terrain-pow-const', 'terrain.py', "    nrange = np.arange(2 ** 20, dtype=np.int32)", "    nrange = np.arange(1048576, dtype=np.int32)")
+
+# ------------------------------------------------------------------------------------------------ C07
+M('C07', 'pad-y-from-cellsize-x', 'proximity.py', "pad_y = int(max_distance / cellsize_y + 0.5)", "pad_y = int(max_distance / cellsize_x + 0.5)", 'P7a')
+M('C07', 'pad-minus-one', 'proximity.py', "pad_x = int(max_distance / cellsize_x + 0.5)", "pad_x = int(max_distance / cellsize_x) - 1", 'P7a')
+M('C07', 'pad-truncated-half', 'proximity.py', "pad_x = int(max_distance / cellsize_x + 0.5)", "pad_x = int(max_distance / cellsize_x - 0.5)", 'P7a')
+M('C07', 'depth-swapped', 'proximity.py', "depth=(pad_y, pad_x),", "depth=(pad_x, pad_y),", 'P7a')
+M('C07', 'res-unpack-swapped', 'proximity.py', "            cellsize_x, cellsize_y = get_dataarray_resolution(raster)\n            # calculate padding", "            cellsize_y, cellsize_x = get_dataarray_resolution(raster)\n            # calculate padding", 'P7a')
+M('C07', 'boundary-zero', 'proximity.py', "            depth=(pad_y, pad_x),\n            boundary=np.nan,", "            depth=(pad_y, pad_x),\n            boundary=0,", 'H2')
+M('C07', 'fallback-no-ys-rechunk', 'proximity.py', "            ys = ys.rechunk({0: height, 1: width})\n", "", 'P7b')
+M('C07', 'fallback-inverted', 'proximity.py', "        if max_distance >= max_possible_distance:", "        if max_distance <= max_possible_distance:")
+M('C07', 'fallback-diagonal-one-axis', 'proximity.py', "        xs[0][0], xs[-1][-1], ys[0][0], ys[-1][-1], distance_metric", "        xs[0][0], xs[-1][-1], ys[0][0], ys[0][0], distance_metric", 'P7b')
+M('C07', 'grids-swapped-in-overlap', 'proximity.py', "            raster.data, xs, ys,", "            raster.data, ys, xs,", 'P7-args')
+T('C07', 'grid-chunks-differ', 'proximity.py', "        ys = da.from_array(ys, chunks=(raster.chunks))", "        ys = da.from_array(ys, chunks='auto')")
+T('C07', 'fallback-pad-nonzero', 'proximity.py', "            pad_y = pad_x = 0", "            pad_y = 0\n            pad_x = 1")
+M('C07', 'ys-grid-tiled', 'proximity.py', "ys = np.repeat(raster[y].data, raster.shape[1]).reshape(raster.shape)", "ys = np.tile(raster[y].data, raster.shape[1]).reshape(raster.shape)", 'P7-grid')
+T('C07', 'pad-ceil', 'proximity.py', "pad_y = int(max_distance / cellsize_y + 0.5)", "pad_y = int(np.ceil(max_distance / cellsize_y))")
+T('C07', 'pad-plus-one', 'proximity.py', "pad_x = int(max_distance / cellsize_x + 0.5)", "pad_x = int(max_distance / cellsize_x + 1)")
